@@ -1,6 +1,8 @@
 package sym
 
 import (
+	"sync"
+	"reflect"
 	"fmt"
 	"go/types"
 	"os"
@@ -103,7 +105,7 @@ func (ex *Exec) invoke(fv *Func, args []Value, site ssa.Instruction) Value {
 	if fn.Blocks == nil {
 		ex.fail("UNMODELLED callee %s (external)", name)
 	}
-	if ex.eng.Cfg.Merge[name] {
+	if ex.eng.Cfg.Merge[name] || (ex.autoMerge > 0 && ex.autoMergeable(fn)) {
 		return ex.callMerged(fn, args, fv.Env, site)
 	}
 	return ex.callFunc(fn, args, fv.Env, site)
@@ -187,7 +189,66 @@ var RepoDir = "/repo"
 
 func (e *Engine) repoFile(rel string) string { return RepoDir + "/" + rel }
 
+// scoped runs f with cond added to the path condition and forgets cond, and
+// everything derived from it, afterwards. f must not fork.
+func (ex *Exec) scoped(cond *smt.Term, f func()) {
+	n0 := len(ex.pc)
+	cp := func(m map[int]ival) map[int]ival {
+		c := make(map[int]ival, len(m))
+		for k, v := range m {
+			c[k] = v
+		}
+		return c
+	}
+	savedPinned, savedFacts, savedSubst, savedInt := ex.pinned, ex.facts, ex.subst, ex.intFacts
+	savedRC, savedUB := ex.readCache, ex.ubCache
+	ex.pinned = make(map[int]int, len(savedPinned))
+	for k, v := range savedPinned {
+		ex.pinned[k] = v
+	}
+	ex.facts = cp(savedFacts)
+	ex.subst = make(map[int]*smt.Term, len(savedSubst))
+	for k, v := range savedSubst {
+		ex.subst[k] = v
+	}
+	ex.intFacts = make(map[string]ival, len(savedInt))
+	for k, v := range savedInt {
+		ex.intFacts[k] = v
+	}
+	ex.ubCache = make(map[int]int, len(savedUB))
+	for k, v := range savedUB {
+		ex.ubCache[k] = v
+	}
+	ex.readCache = &readCache{m: map[[2]int]*smt.Term{}, up: savedRC}
+	ex.ivalMemo, ex.nzMemo = nil, nil
+	defer func() {
+		for _, c := range ex.pc[n0:] {
+			delete(ex.pcSet, c.ID)
+		}
+		ex.pc = ex.pc[:n0]
+		ex.pinned, ex.facts, ex.subst, ex.intFacts = savedPinned, savedFacts, savedSubst, savedInt
+		ex.readCache, ex.ubCache = savedRC, savedUB
+		ex.ivalMemo, ex.nzMemo = nil, nil
+	}()
+	ex.addPC(cond)
+	f()
+}
+
 // ---- merged calls ----
+
+const mergePathLimit = 1024
+
+// autoMergeable: a function of the module under test (not harness code) that returns something.
+func (ex *Exec) autoMergeable(fn *ssa.Function) bool {
+	if fn.Signature.Results().Len() == 0 || fn.Blocks == nil {
+		return false
+	}
+	if !strings.HasPrefix(fnPkgPath(fn), "github.com/google/go-tdx-guest") || strings.Contains(fnPkgPath(fn), "/zzvp") {
+		return false
+	}
+	file := ex.eng.Fset.Position(fn.Pos()).Filename
+	return !strings.Contains(file, "zz_verif_")
+}
 
 type mergedOut struct {
 	cond *smt.Term
@@ -203,6 +264,8 @@ func (ex *Exec) callMerged(fn *ssa.Function, args []Value, env []Value, site ssa
 	savedFrames := len(ex.frames)
 	savedPinned := ex.pinned
 	savedFacts, savedSubst, savedInt := ex.facts, ex.subst, ex.intFacts
+	savedRC, savedUB := ex.readCache, ex.ubCache
+	defer func() { ex.readCache, ex.ubCache = savedRC, savedUB }()
 	mark := ex.objSeq
 	var outs []mergedOut
 	dropped := 0
@@ -232,17 +295,41 @@ func (ex *Exec) callMerged(fn *ssa.Function, args []Value, env []Value, site ssa
 			ex.intFacts[k] = v
 		}
 		ex.ivalMemo, ex.nzMemo = nil, nil
+		ex.readCache = &readCache{m: map[[2]int]*smt.Term{}, up: savedRC}
+		ex.ubCache = make(map[int]int, len(savedUB))
+		for k, v := range savedUB {
+			ex.ubCache[k] = v
+		}
 	}
 	npaths := 0
 	impure := false
+	auto := false
+	defer func() {
+		if auto {
+			ex.autoMerge--
+		}
+		if npaths > ex.eng.rep.MaxMergedPaths {
+			ex.eng.rep.MaxMergedPaths = npaths
+		}
+	}()
 	markDepth := len(ex.mergeMarks)
 	for len(work) > 0 {
 		p := work[len(work)-1]
 		work = work[:len(work)-1]
 		npaths++
-		if npaths > 4096 {
+		if npaths > mergePathLimit && !auto && ex.autoMerge == 0 {
+			// too many paths: start again, merging the module's functions called below
+			// this one as well (helpers the merge list does not name)
+			auto = true
+			ex.autoMerge++
+			ex.eng.noteOnce("merge list: " + fn.String() + " exceeds " + itoa(mergePathLimit) + " paths; re-run with the module functions it calls merged as well")
+			outs, dropped, assumed, npaths = nil, 0, false, 1
+			work = nil
+			p = nil
+		}
+		if npaths > 4*mergePathLimit {
 			ex.tr = savedTr
-			ex.fail("merged call %s has more than 4096 paths", fn)
+			ex.fail("merged call %s has more than %d paths", fn, 4*mergePathLimit)
 		}
 		restore()
 		ex.tr = &traceCtx{prefix: p}
@@ -539,7 +626,11 @@ func (ex *Exec) appendBuiltin(s, t Value, c *ssa.CallCommon) Value {
 			for i := 0; i < b.Len; i++ {
 				v.Elems = append(v.Elems, ex.newObj(elemT, ex.copyOut(b.Vec.Elems[b.Off+i].V)))
 			}
-			return &GSlice{Vec: v, Len: b.Len, Cap: b.Len}
+			nc := ex.grownCap(0, 0, b.Len, elemT)
+			for i := b.Len; i < nc; i++ {
+				v.Elems = append(v.Elems, ex.newObj(elemT, ex.zero(elemT)))
+			}
+			return &GSlice{Vec: v, Len: b.Len, Cap: nc}
 		}
 		if a.Len+b.Len <= a.Cap {
 			ex.checkWritable(a.Vec.Frozen, a.Vec.ID, "append in place to slice")
@@ -559,7 +650,11 @@ func (ex *Exec) appendBuiltin(s, t Value, c *ssa.CallCommon) Value {
 			v.Elems = append(v.Elems, ex.newObj(elemT, ex.copyOut(b.Vec.Elems[b.Off+i].V)))
 		}
 		n := a.Len + b.Len
-		return &GSlice{Vec: v, Len: n, Cap: n}
+		nc := ex.grownCap(a.Len, a.Cap, b.Len, elemT)
+		for i := n; i < nc; i++ {
+			v.Elems = append(v.Elems, ex.newObj(elemT, ex.zero(elemT)))
+		}
+		return &GSlice{Vec: v, Len: n, Cap: nc}
 	}
 	ex.fail("append on %T", s)
 	return nil
@@ -675,4 +770,65 @@ func (ex *Exec) selectInstr(f *frame, ins *ssa.Select) Value {
 		}
 	}
 	return res
+}
+
+// grownCap: the capacity the gc runtime gives a slice that append has to re-allocate (a later
+// append may then write in place into memory shared with an earlier result: the engine has to
+// see that). Obtained from the runtime itself, for an element type of the same size and kind.
+var grownCapMemo sync.Map
+
+func (ex *Exec) grownCap(oldLen, oldCap, add int, elemT types.Type) int {
+	need := oldLen + add
+	if elemT == nil {
+		return need
+	}
+	sizes := types.SizesFor("gc", "amd64")
+	es := sizes.Sizeof(elemT)
+	if es <= 0 || es > 4096 || need > 1<<16 {
+		return need
+	}
+	ptrs := typeHasPointers(elemT)
+	key := [5]int64{int64(oldLen), int64(oldCap), int64(add), es, 0}
+	if ptrs {
+		key[4] = 1
+	}
+	if v, ok := grownCapMemo.Load(key); ok {
+		return v.(int)
+	}
+	var et reflect.Type
+	if ptrs && es%8 == 0 {
+		et = reflect.ArrayOf(int(es/8), reflect.TypeOf((*byte)(nil)))
+	} else {
+		et = reflect.ArrayOf(int(es), reflect.TypeOf(byte(0)))
+	}
+	st := reflect.SliceOf(et)
+	var old reflect.Value
+	if oldCap == 0 {
+		old = reflect.Zero(st)
+	} else {
+		old = reflect.MakeSlice(st, oldLen, oldCap)
+	}
+	res := reflect.AppendSlice(old, reflect.MakeSlice(st, add, add)).Cap()
+	if res < need {
+		res = need
+	}
+	grownCapMemo.Store(key, res)
+	return res
+}
+
+func typeHasPointers(t types.Type) bool {
+	switch u := t.Underlying().(type) {
+	case *types.Basic:
+		return u.Kind() == types.String || u.Kind() == types.UnsafePointer
+	case *types.Array:
+		return typeHasPointers(u.Elem())
+	case *types.Struct:
+		for i := 0; i < u.NumFields(); i++ {
+			if typeHasPointers(u.Field(i).Type()) {
+				return true
+			}
+		}
+		return false
+	}
+	return true
 }
